@@ -37,7 +37,10 @@ def _read(name):
 # (name, source, expected output = Go's meaning, as bash prints it)
 DIRECTED = [("case-insensitive-names", _read("case-insensitive-names.tsh"), "1 2\n8\n7\n", True),
             # several length queries in one statement (round 6: C05-7, the Batch length register shared by all of them)
-            ("two-lengths", _read("two-lengths.tsh"), "2\na is longer\n2 30\n32\n3 2\n23\ni 0\n1 12\n", False)]
+            ("two-lengths", _read("two-lengths.tsh"), "2\na is longer\n2 30\n32\n3 2\n23\ni 0\n1 12\n", False),
+            # the count copy() returns next to a length query in the same statement (genuine defect repaired in round 10: the Batch
+            # converter returned the shared register !_len! itself)
+            ("copy-count-and-length", _read("copy-count-and-length.tsh"), "5\n5\n", False)]
 
 
 SEMB = dict(cases=0, in_scalar_fragment=0, in_theorem_fragment=0, src32_defined=0, cmd_defined=0, both=0)
